@@ -15,7 +15,9 @@ global size_of usize == 8;
 
 verus! {
 //@item src/stack.rs struct InstanceObject
+//@derives Clone
 //@item src/stack.rs enum StackObject
+//@derives Clone
 //@item src/stack.rs struct Stack
 //@derives Default
 //@item src/state.rs struct State
